@@ -324,6 +324,11 @@ pub trait Writer {
         length: u64,
         format: Format,
     ) -> Result<()> {
+        // Values from 0xffff_fff0 are reserved in the 32-bit format: they would be
+        // read back as an unknown reserved length or as the 64-bit escape.
+        if format == Format::Dwarf32 && (0xffff_fff0..=0xffff_ffff).contains(&length) {
+            return Err(Error::InitialLengthOverflow);
+        }
         self.write_udata_at(offset.0, length, format.word_size())
     }
 }
